@@ -44,7 +44,7 @@ class EvalContext(metaclass=NamespaceableMeta):
                 node = self._cfgobj[key]
                 return self._eval_ctx.evaluate_node(node, self._path + [key])
 
-            if self._eval_ctx._require_all_safe and ('path', str(self._path + [key])) in self._eval_ctx._tainted:
+            if self._eval_ctx._require_all_safe and ('path', tuple(self._path + [key])) in self._eval_ctx._tainted:
                 raise errors.UnsafeError(f'Note: the current context requires all evaluated nodes to be safe but the value already evaluated for {str(self._path + [key])!r} was computed from at least one !unsafe node', self._cfgobj[key], str(self._path + [key]))
             return super().__getitem__(key)
 
@@ -123,12 +123,12 @@ class EvalContext(metaclass=NamespaceableMeta):
 
     def get_node(self, *path, **kwargs):
         path = NodePath.get_list_path(*path)
-        if str(path) in self._eval_cache:
-            if ('path', str(path)) in self._tainted:
+        if tuple(path) in self._eval_cache: # keyed by the path itself: its text is ambiguous ('a.b' is also a valid single key)
+            if ('path', tuple(path)) in self._tainted:
                 if self._require_all_safe:
                     raise errors.UnsafeError(f'Note: the current context requires all evaluated nodes to be safe but the value cached for {str(path)!r} was computed from at least one !unsafe node', self.cfg.ayns.get_node(path, incomplete=None), str(path))
                 self._unsafe_seen += 1
-            return self._eval_cache[str(path)]
+            return self._eval_cache[tuple(path)]
         return self.cfg.ayns.get_node(path, **kwargs)
 
     @errors.api_entry
@@ -172,10 +172,10 @@ class EvalContext(metaclass=NamespaceableMeta):
         if evaluated_parent is not None:
             evaluated_parent[prefix[-1]] = evaluated_cfgobj
 
-        self._eval_cache[str(prefix)] = evaluated_cfgobj
+        self._eval_cache[tuple(prefix)] = evaluated_cfgobj
         self._eval_cache_id[utils.persistent_id(cfgobj)] = evaluated_cfgobj
         if self._unsafe_seen != unsafe_seen or not cfgobj.ayns.safe:
-            self._tainted.add(('path', str(prefix)))
+            self._tainted.add(('path', tuple(prefix)))
             self._tainted.add(('id', id(cfgobj)))
         self._eval_stack.pop()
         return evaluated_cfgobj
